@@ -134,6 +134,7 @@ func c11Run(c *core.Case, o *core.Outcome) {
 		desc := fmt.Sprintf("vol=%g f=%v n=%d peak=%v sigma=%v weights=[%s] api=%v", vol, f, n, peak, sigma, strings.Join(ws, ","), viaRates)
 
 		var rate func(time.Time) int
+		fileYAML := ""
 		if !viaFlags && nw == 0 && r.IntN(6) == 0 {
 			// a config-file stage that says "no weights" (an explicitly empty list) under a default section with weights
 			y := fmt.Sprintf("scenario: s\nlimits:\n  max-duration: 10000h\n  concurrency: 1\n  max-iterations: 0\n  ignore-dropped: true\ndefault:\n  distribution: none\n  jitter: 0\n  weights: \"1,3\"\nstages:\n- duration: 9000h\n  mode: gaussian\n  volume: %s\n  repeat: %s\n  iteration-frequency: %s\n  peak: %s\n  standard-deviation: %s\n  weights: \"\"\n",
@@ -160,6 +161,9 @@ func c11Run(c *core.Case, o *core.Outcome) {
 			}
 			rate = rs.Stages[judged].Rate
 			viaRates = false
+			if judged == 0 {
+				fileYAML = y
+			}
 		} else if viaFlags {
 			b := gaussian.Rate(ui.NewDiscardOutput())
 			args := []string{"--volume", strconv.FormatFloat(vol, 'f', -1, 64), "--repeat", R.String(), "--iteration-frequency", f.String(), "--peak", peak.String(),
@@ -293,6 +297,29 @@ func c11Run(c *core.Case, o *core.Outcome) {
 		}
 		if o.Verdict == core.Violated {
 			return
+		}
+		if sub := int(f / (100 * time.Millisecond)); fileYAML != "" && sub >= 2 && f%(100*time.Millisecond) == 0 && n*sub <= 400000 {
+			// the same stage with `distribution: regular`: the plan hands out a rate function together with the interval at which
+			// it is to be called; called at that interval over the first two windows it requests what the stage requests
+			// without a distribution, window by window (a distribution neither creates nor loses iterations)
+			yr := strings.Replace(fileYAML, "  distribution: none\n", "  distribution: regular\n", 1)
+			rsr, rerr := file.ParseConfigFile([]byte(yr), time.Now())
+			if rerr != nil || len(rsr.Stages) != 1 || rsr.Stages[0].Rate == nil || rsr.Stages[0].IterationDuration <= 0 {
+				o.Violate("gauss-regular-rejected:"+desc, "the same stage with distribution regular was not accepted: %v (%s)", rerr, desc)
+				return
+			}
+			step := rsr.Stages[0].IterationDuration
+			for w := 0; w < 2; w++ {
+				got := 0.0
+				for at := time.Duration(0); at < R; at += step {
+					got += float64(rsr.Stages[0].Rate(t0.Add(R*time.Duration(w) + at)))
+				}
+				if got != sums[w] {
+					o.Violate("gauss-file-regular:"+desc, "window %d: called every %v (the interval the plan gives for it) the stage with distribution regular requests %.0f iterations, the same stage without a distribution requests %.0f (%s)", w, step, got, sums[w], desc)
+					return
+				}
+			}
+			o.AddObs("file_stages_with_regular_distribution", 1)
 		}
 		// match weights in cyclic order from some offset
 		offsets := 1
